@@ -59,6 +59,8 @@ func main() {
 		failMode(*seed, *n)
 	case "shutdown":
 		shutdownMode(*seed)
+	case "retreload":
+		retReloadMode()
 	default:
 		fmt.Fprintln(os.Stderr, "unknown mode")
 		os.Exit(2)
